@@ -1,4 +1,4 @@
-CONSTANTS Lens = {0, 1, 30} Formats = {"ci", "ci+dl", "impl", "impl+dl"} SpaLens = {3, 6} StartCi = {0, 254} MaxPk = 4
+CONSTANTS Lens = {0, 1, 30} Formats = {"ci", "ci+dl", "impl", "impl+dl"} SpaLens = {3, 6} StartCi = {0, 254} Bursts = {2, 16, 240, 255} MaxPk = 4
 SPECIFICATION GSpec
 VIEW gview
 CONSTRAINT Dump
